@@ -131,14 +131,17 @@ func OpenWriter
 // the format-specific record writer behind (*Writer).writer; writeV1/writeV2 refine it
 field Writer.writer
     requires[sync_ok] wrOK(self)
-    assigns fsDirty, fsContent
+    assigns fsDirty, fsContent, fData, fSize, Writer.pos, Writer.buff
+    ensures[struct_pos] old(self.pos) >= 0 ==> (ret1 == nil ==> ret0 == old(self.pos) && self.pos >= ret0) && self.pos >= 0
     ensures[sync_frame] forall p string :: p != self.Path ==> fsDirty[p] == old(fsDirty[p]) && fsContent[p] == old(fsContent[p])
 
 func (*Writer).Write
     flags noframe
     requires[sync_ok] wrOK(w)
-    assigns fsDirty, fsContent
+    assigns fsDirty, fsContent, fData, fSize, Writer.pos, Writer.buff
     ensures[sync_frame] forall p string :: p != w.Path ==> fsDirty[p] == old(fsDirty[p]) && fsContent[p] == old(fsContent[p])
+    // positions handed out are non-negative (the writer position never goes below the file header)
+    ensures[struct_pos] old(w.pos) >= 0 ==> (ret1 == nil ==> ret0 >= 0) && w.pos >= 0
 
 func (*Writer).Sync
     flags noframe
